@@ -112,24 +112,57 @@ func harnessTrouble(c *ev.Collector, rt *rapid.T, format string, args ...any) {
 	rt.Fatalf("VF-INCONCLUSIVE: %s", msg)
 }
 
-// filled returns an n-byte buffer filled with 0xa5, used to detect writes
-// beyond the promised output.
+// Stale destination contents.  Every output buffer handed to the code under
+// test is pre-filled with non-zero junk, so that a result which depends on what
+// the destination held before (a skipped zeroing, an XOR into the destination,
+// a partially written output) shows up as a wrong result.  The junk is a
+// function of staleSeed and of the distance to the end of the backing array, so
+// that "was the tail left untouched" can be checked on any tail sub-slice.
+// staleSeed is drawn per case (setStale); 0 selects the constant 0xa5.
+var staleSeed uint64
+
+func setStale(t *rapid.T) string {
+	if rapid.IntRange(0, 3).Draw(t, "staleKind") == 3 {
+		staleSeed = 0
+		return "stale=a5"
+	}
+	staleSeed = rapid.Uint64Range(1, 1<<64-1).Draw(t, "staleSeed")
+	return "stale=drawn"
+}
+
+func junk(r int) byte {
+	if staleSeed == 0 {
+		return 0xa5
+	}
+	v := byte(staleSeed>>(8*uint(r&7))) ^ byte(r*157) ^ byte(r>>8)
+	if v == 0 {
+		v = 0x5a
+	}
+	return v
+}
+
+// filled returns an n-byte buffer (capacity exactly n) holding stale junk.
 func filled(n int) []byte {
 	b := make([]byte, n)
 	for i := range b {
-		b[i] = 0xa5
+		b[i] = junk(n - i)
 	}
 	return b
 }
 
+// allA5 reports whether b, a tail sub-slice of a filled() buffer (capacity
+// reaching the end of that buffer), still holds the junk it was created with.
 func allA5(b []byte) bool {
-	for _, x := range b {
-		if x != 0xa5 {
+	for i, x := range b {
+		if x != junk(cap(b)-i) {
 			return false
 		}
 	}
 	return true
 }
+
+func stale32() (a [32]byte) { copy(a[:], filled(32)); return }
+func stale64() (a [64]byte) { copy(a[:], filled(64)); return }
 
 // firstDiff returns the first index where a and b differ (or the shorter
 // length), for readable messages.
